@@ -583,6 +583,8 @@ class Emitter:
         self.locals = set(locals_)
         self.on_break = self.on_continue = self.on_end = None   # Lean terms for loop bodies
         self.on_while = None                                    # callback (stmt, rest) -> Lean term
+        self.on_assert = None     # Lean term for a failed debug_assert! (None: assertions are dropped)
+        self.on_unreachable = None
         self.consts = {}          # rust path -> lean term, for constant patterns (`Some(MessageIntegrity::TYPE) =>`)
         self.preconditions = []   # contract panics dropped from the translation (recorded, stated in the theorem)
 
@@ -696,6 +698,23 @@ class Emitter:
             return self.result(s[1], pure=False) if not pure else self._no("return inside a value block")
         if k == "expr":
             e = s[1]
+            if e[0] == "macro" and e[1] == "debug_assert" and self.on_assert is not None and not pure:
+                toks, depth, cut = e[2], 0, len(e[2])
+                for i, t in enumerate(toks):
+                    if t in ("(", "[", "{"):
+                        depth += 1
+                    elif t in (")", "]", "}"):
+                        depth -= 1
+                    elif t == "," and depth == 0:
+                        cut = i
+                        break
+                q = P(toks[:cut])
+                cond = q.expr()
+                if q.peek() is not None:
+                    raise XlateError("debug_assert! condition")
+                return f"(if {self.tx(cond, 'c')} then {self.blk(rest, pure)} else {self.on_assert})"
+            if e[0] == "macro" and e[1] == "unreachable" and self.on_unreachable is not None and not pure:
+                return self.on_unreachable
             if e[0] == "macro":
                 if e[1] in MACRO_DROP:
                     return self.blk(rest, pure)
@@ -739,6 +758,8 @@ class Emitter:
                 return self.blk(rest, pure)
             if not s[2] and not rest:
                 return self.result(e, pure)
+            if e[0] == "try" and s[2]:
+                return f"(match {self.tx(e[1])} with | Except.ok _ => {self.blk(rest, pure)} | Except.error __e => Except.error __e)"
             # expression statement with an effect on the state
             for pat, out in self.stmts:
                 b = {}
@@ -755,6 +776,8 @@ class Emitter:
                     v = self.subst(val, b)
                     pre = f"let __v := {v}; {self.subst(st, b)} "
                     return pre + self._bind(p, "__v", els, rest, pure)
+            if init[0] in ("match", "if", "iflet", "block") and els is None and not pure and self._has_exit(init):
+                return self._cps_let(p, init, rest, pure)
             if init[0] == "try":
                 lp = self.pat(p)
                 return f"(match {self.tx(init[1])} with | Except.ok {lp} => {self.blk(rest, pure)} | Except.error __e => Except.error __e)"
@@ -789,6 +812,43 @@ class Emitter:
                 return f"let {lhs[1][1]} := ({lhs[1][1]}.set {self.tx(lhs[2])} {self.tx(rhs)}); {self.blk(rest, pure)}"
             raise XlateError(f"assignment target {render(lhs)}")
         raise XlateError(f"statement kind {k}")
+
+    def _has_exit(self, e):
+        """does the block-like expression contain `?` or `return` (so that it cannot be a pure value)?"""
+        if isinstance(e, tuple):
+            if e and e[0] in ("try", "return"):
+                return True
+            return any(self._has_exit(x) for x in e)
+        if isinstance(e, list):
+            return any(self._has_exit(x) for x in e)
+        return False
+
+    def _cps_let(self, p, init, rest, pure):
+        """`let p = match … { … };  rest`  with early exits inside the arms: the continuation moves into the arms"""
+        def arm(stmts):
+            stmts = list(stmts)
+            if stmts and stmts[-1][0] == "expr" and not stmts[-1][2]:
+                tail = stmts[-1][1]
+                return self.blk(stmts[:-1] + [("let", p, tail, None)] + rest, pure)
+            return self.blk(stmts, pure)      # ends in return / break
+        if init[0] == "block":
+            return arm(init[1])
+        if init[0] == "if":
+            if init[3] is None:
+                raise XlateError("let from an if without else")
+            return f"(if {self.tx(init[1], 'c')} then {arm(init[2])} else {arm(init[3])})"
+        if init[0] == "match":
+            scrut, pre = self.scrutinee(init[1])
+            arms = []
+            for q, guard, body in init[2]:
+                if guard is not None:
+                    raise XlateError("match guard")
+                saved = set(self.locals)
+                lp = self.pat(q)
+                arms.append(f"| {lp} => {arm(body)}")
+                self.locals = saved
+            return f"{pre}(match {scrut} with " + " ".join(arms) + ")"
+        raise XlateError("let from if-let")
 
     def _const(self, p):
         if p[0] == "ppath" and p[1] in self.consts:
